@@ -28,6 +28,12 @@ def run(chk):
     chk.samples.append({'exchange_paths': [domaha.classify(E, s)['names'] for s in E.paths if s.status == 'done'][:12]})
     chk.absorb(ex)
     persist_load(chk)
+    # the callers of the exchange function leave the interval it dictated in place (ping; the check flows assign
+    # only the counter and the times: C08)
+    import sutmon
+    n0 = len(chk.obligations)
+    sutmon.monitor_ping(chk, 1, 1)
+    chk.obligations = chk.obligations[:n0] + [o for o in chk.obligations[n0:] if o.name == 'ping-bookkeeping']
     chk.assumptions += [
         'logging is off (tracing Level <= LevelFilter modelled false)',
         'RequestBuilder::build is an abstract event with the contract "metadata is Some iff a handler was given" (checked by C03 on build itself)',
